@@ -1,19 +1,9 @@
 //! gv — the verification harness for cloudformation-guard (see /verif/DESIGN.md).
 //!   gv run <ID> <quick|thorough>        run one property's check
 //!   gv replay <ID> <file>               re-evaluate a saved case, bypassing all generators
-mod ast;
-mod choices;
-mod docw;
-mod drive;
-mod engine;
-mod gen;
-mod model;
-mod props;
-mod regex_mini;
-mod val;
-mod vprint;
 
-use engine::{CaseResult, Tier};
+use gv::engine::{CaseResult, Tier};
+use gv::{drive, props};
 
 fn main() {
     let args: Vec<String> = std::env::args().collect();
